@@ -71,6 +71,9 @@ def cases(tier, seed):
     out = []
     for holes, terms, probes, mesh, save_mesh, route in itertools.product((0, 1), (0, 1), (0, 1), (0, 1), (0, 1), ("path", "group", "pickle", "cloudpickle")):
         out.append(dict(fam="device", holes=holes, terminals=terms, probes=probes, mesh=mesh, save_mesh=save_mesh, route=route))
+    # layer attribute value classes: zero-valued (falsy), negative, integer-typed, None
+    for lay, route in itertools.product(("zeros", "negative_z0", "ints", "tiny"), ("path", "group", "pickle", "solution")):
+        out.append(dict(fam="device", holes=1, terminals=1, probes=1, mesh=1, save_mesh=1, route=route, layer=lay))
     for m in ("G2", "G3", "G7s", "tiny"):
         out.append(dict(fam="mesh", mesh=m))
     for k, vs in OPTION_VARIANTS.items():
@@ -192,7 +195,7 @@ def behaviour_device(a, b, out):
             out.append("behaviour:probe_point_indices")
 
 
-def make_device(holes, terminals, probes, mesh):
+def make_device(holes, terminals, probes, mesh, layer_kind=None):
     import tdgl
 
     from .. import zoo
@@ -201,8 +204,15 @@ def make_device(holes, terminals, probes, mesh):
     terms = list(g["terminals"])
     if terms:
         terms = [terms[0].copy().set_name("zeta"), terms[1].copy().set_name("alpha")]  # deliberately non-alphabetical
+    layer = {
+        None: dict(coherence_length=0.9, london_lambda=1.7, thickness=0.12, conductivity=(None if holes else 3.5), gamma=7.0, u=4.2, z0=0.3),
+        "zeros": dict(coherence_length=0.9, london_lambda=1.7, thickness=0.12, conductivity=None, gamma=0.0, u=1.0, z0=0.0),
+        "negative_z0": dict(coherence_length=0.9, london_lambda=1.7, thickness=0.12, conductivity=0.0, gamma=0, u=5.79, z0=-1.5),
+        "ints": dict(coherence_length=1, london_lambda=2, thickness=1, conductivity=3, gamma=3, u=1, z0=0),
+        "tiny": dict(coherence_length=0.9, london_lambda=1.7, thickness=1e-9, conductivity=1e-30, gamma=1e-12, u=1e-9, z0=1e-300),
+    }[layer_kind]
     dev = tdgl.Device(
-        "roundtrip", layer=tdgl.Layer(coherence_length=0.9, london_lambda=1.7, thickness=0.12, conductivity=(None if holes else 3.5), gamma=7.0, u=4.2, z0=0.3),
+        "roundtrip", layer=tdgl.Layer(**layer),
         film=g["film"], holes=g["holes"], terminals=terms, probe_points=g["probe_points"], length_units="um",
     )
     if mesh:
@@ -217,11 +227,17 @@ def run_device(case):
 
     res = CaseResult()
     res.key = case_key(case)
-    dev = make_device(case["holes"], case["terminals"], case["probes"], case["mesh"])
+    dev = make_device(case["holes"], case["terminals"], case["probes"], case["mesh"], case.get("layer"))
     route = case["route"]
     save_mesh = bool(case["save_mesh"])
     try:
-        if route == "path":
+        if route == "solution":
+            # the device travels inside a saved Solution
+            dt = 2.0**-6
+            sol = tdgl.solve(dev, tdgl.SolverOptions(solve_time=0.0, dt_init=dt, dt_max=dt, adaptive=False, save_every=1, output_file="devsol.h5",
+                                                    progress_interval=10**9), applied_vector_potential=0.1)
+            back = tdgl.Solution.from_hdf5("devsol.h5").device
+        elif route == "path":
             dev.to_hdf5("dev.h5", save_mesh=save_mesh)
             back = tdgl.Device.from_hdf5("dev.h5")
         elif route == "group":
